@@ -1800,3 +1800,188 @@ def g_linear_family(repo):
 
 GROUPS += [("LinearFamily", g_linear_family, ["nflows/transforms/lu.py", "nflows/transforms/qr.py", "nflows/transforms/svd.py",
                                                "nflows/transforms/linear.py"])]
+
+
+# ---------------------------------------------------------------- sampling paths as row-layout programs
+class RowTr:
+    """statements over row batches: merge_leading_dims(v, num_dims=2) -> concat; repeat_rows(v, num_reps=n) -> rep_rows n;
+    split_leading_dim(v, shape=[-1, n] | [k, n]) -> chunks; self._transform.inverse(a, context=b) -> zip_with inv;
+    elementwise arithmetic between equally laid out batches -> rows_zip; `if <ctx> is not None:` bodies are followed (the
+    with-context path); the `if self._context_used_in_base` test takes its first branch"""
+
+    def __init__(self, what):
+        self.what = what
+        self.lets = []
+
+    def bind(self, name, term):
+        self.lets.append((name, term))
+
+    def expr(self, e, env):
+        u = ast.unparse(e)
+        if isinstance(e, ast.Name):
+            if e.id not in env:
+                raise Untranslatable("%s: unbound %s" % (self.what, e.id), e)
+            return env[e.id]
+        if isinstance(e, ast.Call):
+            f = ast.unparse(e.func)
+            kw = {k.arg: k.value for k in e.keywords}
+            if f == "torchutils.merge_leading_dims" and len(e.args) == 1 and ast.unparse(kw.get("num_dims")) == "2":
+                return "(concat %s)" % self.expr(e.args[0], env)
+            if f == "torchutils.repeat_rows":
+                n = kw.get("num_reps", e.args[1] if len(e.args) > 1 else None)
+                if n is None or ast.unparse(n) != "num_samples":
+                    raise Untranslatable("%s: repeat_rows count" % self.what, e)
+                return "(rep_rows n %s)" % self.expr(e.args[0], env)
+            if f == "torchutils.split_leading_dim":
+                shp = kw.get("shape", e.args[1] if len(e.args) > 1 else None)
+                us = ast.unparse(shp)
+                v = self.expr(e.args[0], env)
+                if us == "[-1, num_samples]":
+                    return "(chunks n (length %s / n) %s)" % (v, v)
+                if us == "[context_size, num_samples]":
+                    return "(chunks n k %s)" % v
+                raise Untranslatable("%s: split shape %s" % (self.what, us), e)
+            if f == "torch.exp" and len(e.args) == 1:
+                return "(rows_map (o_exp O) %s)" % self.expr(e.args[0], env)
+            raise Untranslatable("%s: call %s" % (self.what, f), e)
+        if isinstance(e, ast.BinOp) and isinstance(e.op, (ast.Add, ast.Mult, ast.Sub)):
+            op = {ast.Add: "o_add", ast.Mult: "o_mul", ast.Sub: "o_sub"}[type(e.op)]
+            return "(rows_zip (%s O) %s %s)" % (op, self.expr(e.left, env), self.expr(e.right, env))
+        raise Untranslatable("%s: expression %s" % (self.what, u[:50]), e)
+
+
+def flow_sample_method(fn, with_log_prob):
+    """-> gallina body for the with-context path"""
+    tr = RowTr("Flow." + fn.name)
+    env = {}
+    out = []
+    body = [s for s in fn.body if not (isinstance(s, ast.Expr) and isinstance(s.value, ast.Constant))]
+
+    def stmts(sts):
+        for st in sts:
+            u = ast.unparse(st)
+            if isinstance(st, ast.If):
+                t = ast.unparse(st.test)
+                if t == "self._context_used_in_base":
+                    stmts(st.body)
+                    continue
+                if t == "embedded_context is not None":
+                    stmts(st.body)
+                    if st.orelse:
+                        raise Untranslatable("Flow.%s: else branch of the context test" % fn.name, st)
+                    continue
+                raise Untranslatable("Flow.%s: branch %s" % (fn.name, t), st)
+            if isinstance(st, ast.Assign) and len(st.targets) == 1:
+                t, v = st.targets[0], st.value
+                uv = ast.unparse(v)
+                if ast.unparse(t) == "embedded_context" and uv == "self._embedding_net(context)":
+                    env["embedded_context"] = "embedded_context"
+                    continue
+                if isinstance(t, ast.Name) and uv == "self._distribution.sample(num_samples, context=embedded_context)":
+                    env[t.id] = "noise"
+                    continue
+                if isinstance(t, ast.Tuple) and uv == "self._distribution.sample_and_log_prob(num_samples, context=embedded_context)":
+                    names = [ast.unparse(x) for x in t.elts]
+                    env[names[0]] = "noise"
+                    env[names[1]] = "base_log_prob"
+                    continue
+                if isinstance(t, ast.Tuple) and isinstance(v, ast.Call) and ast.unparse(v.func) == "self._transform.inverse":
+                    kw = {k.arg: ast.unparse(k.value) for k in v.keywords}
+                    if len(v.args) != 1 or set(kw) != {"context"}:
+                        raise Untranslatable("Flow.%s: inverse call" % fn.name, st)
+                    names = [ast.unparse(x) for x in t.elts]
+                    a, c = tr.expr(v.args[0], env), env.get(kw["context"])
+                    if c is None:
+                        raise Untranslatable("Flow.%s: context of the inverse call" % fn.name, st)
+                    out.append(("samples_", "zip_with inv %s %s" % (a, c)))
+                    env[names[0]] = "samples_%d" % len(out)
+                    out[-1] = (env[names[0]], out[-1][1])
+                    if names[1] != "_":
+                        out.append(("lad_", "zip_with invlad %s %s" % (a, c)))
+                        env[names[1]] = "lad_%d" % len(out)
+                        out[-1] = (env[names[1]], out[-1][1])
+                    continue
+                if isinstance(t, ast.Name):
+                    term = tr.expr(v, env)
+                    nm = "%s_%d" % (t.id, len(out) + 1)
+                    out.append((nm, term))
+                    env[t.id] = nm
+                    continue
+            if isinstance(st, ast.Return):
+                rv = st.value
+                if with_log_prob:
+                    if not (isinstance(rv, ast.Tuple) and len(rv.elts) == 2 and ast.unparse(rv.elts[1]) == "log_prob - logabsdet"):
+                        raise Untranslatable("Flow.%s: return form" % fn.name, st)
+                    return "(%s, (%s, %s))" % (tr.expr(rv.elts[0], env), env["log_prob"], env["logabsdet"])
+                return tr.expr(rv, env)
+            raise Untranslatable("Flow.%s: statement %s" % (fn.name, u[:60]), st)
+        return None
+    res = stmts(body)
+    if res is None:
+        raise Untranslatable("Flow.%s: no return" % fn.name, fn)
+    return "".join("  let %s := %s in\n" % kv for kv in out) + "  " + res
+
+
+def cdn_sample_method(fn):
+    tr = RowTr("ConditionalDiagonalNormal._sample")
+    env = {}
+    out = []
+    noise_rows = None
+    for st in fn.body:
+        if isinstance(st, ast.Expr) and isinstance(st.value, ast.Constant):
+            continue
+        u = ast.unparse(st)
+        if isinstance(st, ast.Assign) and len(st.targets) == 1:
+            t, v = st.targets[0], st.value
+            uv = ast.unparse(v)
+            if isinstance(t, ast.Tuple) and uv == "self._compute_params(context)":
+                names = [ast.unparse(x) for x in t.elts]
+                if names != ["means", "log_stds"]:
+                    raise Untranslatable("CDN._sample: parameter names", st)
+                env["means"], env["log_stds"] = "means", "log_stds"
+                continue
+            if isinstance(t, ast.Name) and uv == "context.shape[0]":
+                env[t.id] = "k"
+                continue
+            if isinstance(t, ast.Name) and isinstance(v, ast.Call) and ast.unparse(v.func) == "torch.randn":
+                lead = ast.unparse(v.args[0])
+                if lead not in ("context_size * num_samples", "num_samples * context_size") or ast.unparse(v.args[1]) != "*self._shape":
+                    raise Untranslatable("CDN._sample: noise shape (%s, ...)" % lead, st)
+                noise_rows = "k * n"
+                env[t.id] = "noise"
+                continue
+            if isinstance(t, ast.Name):
+                term = tr.expr(v, env)
+                nm = "%s_%d" % (t.id, len(out) + 1)
+                out.append((nm, term))
+                env[t.id] = nm
+                continue
+        if isinstance(st, ast.Return):
+            res = tr.expr(st.value, env)
+            if noise_rows is None:
+                raise Untranslatable("CDN._sample: no noise drawn", fn)
+            return "".join("  let %s := %s in\n" % kv for kv in out) + "  " + res
+        raise Untranslatable("CDN._sample: statement %s" % u[:60], st)
+    raise Untranslatable("CDN._sample: no return", fn)
+
+
+
+
+def g_flow_rows(repo):
+    fsrc = Source(repo, "nflows/flows/base.py")
+    nsrc = Source(repo, "nflows/distributions/normal.py")
+    defs = []
+    b1 = flow_sample_method(fsrc.method("Flow", "_sample"), False)
+    defs.append(("flow_sample_gen", "Definition flow_sample_gen {ZT CT XT : Type} (inv : ZT -> CT -> XT) (n : nat) (noise : list (list ZT)) "
+                 "(embedded_context : list CT) : list (list XT) :=\n%s.\n" % b1))
+    b2 = flow_sample_method(fsrc.method("Flow", "sample_and_log_prob"), True)
+    defs.append(("flow_sample_and_log_prob_gen",
+                 "Definition flow_sample_and_log_prob_gen {ZT CT XT LT BT : Type} (inv : ZT -> CT -> XT) (invlad : ZT -> CT -> LT) (n : nat) "
+                 "(noise : list (list ZT)) (base_log_prob : BT) (embedded_context : list CT) : list (list XT) * (BT * list (list LT)) :=\n%s.\n" % b2))
+    b3 = cdn_sample_method(nsrc.method("ConditionalDiagonalNormal", "_sample"))
+    defs.append(("cdn_sample_gen", "Definition cdn_sample_gen {T : Type} (O : ops T) (means log_stds noise : list (list T)) (k n : nat) "
+                 ": list (list (list T)) :=\n%s.\n" % b3))
+    return defs, "From NF Require Import Model.Utils Model.FlowSample Model.RowLayout.\nLocal Close Scope Z_scope.\n\n"
+
+
+GROUPS += [("FlowRows", g_flow_rows, ["nflows/flows/base.py", "nflows/distributions/normal.py"])]
